@@ -365,7 +365,7 @@ def check(repo, rep, tier):
     n_reads = 0
     from ..pysym import VOCABULARY
     for mod, fn in closure_functions(repo):
-        if mod.rel in (EN, JA) and isinstance(getattr(fn, '_parent', None), ast.Module) and fn.name.startswith('_') and fn.name not in VOCABULARY \
+        if mod.rel in (EN, JA, UNI) and isinstance(getattr(fn, '_parent', None), ast.Module) and fn.name.startswith('_') and fn.name not in VOCABULARY \
                 and mod.aliases.get(fn.name, fn.name) not in VOCABULARY \
                 and any(isinstance(c, ast.Name) and c.id == fn.name and isinstance(c.ctx, ast.Load) and not any(p_ is fn for p_ in _parents_of(c))
                         for c in ast.walk(mod.tree)):
@@ -377,6 +377,6 @@ def check(repo, rep, tier):
     rep.floor('shape-specific attribute reads judged', n_reads, 40)
     r_partial_lookups(repo, rep)
     nf = r_feature_methods(repo, rep)
-    rep.floor('feature member reads judged', nf, 3)
+    rep.floor('feature member reads judged', nf, 1)     # (two of the three on the reference tree sit in en._match, which nothing calls)
     for rel in (EN, JA):
         rg.check_dispatch(rel[-5:-3], repo.module(rel), rep, 'R14.3')
